@@ -55,6 +55,52 @@ def sync_shape(rep, F, cg):
             '' if (oke and errs) else 'sync has no existence test / error return')
 
 
+def seek_base(rep, F, cg):
+    """`behaves like Cursor`: Start is absolute, Current is relative to the position, End is relative to the length of the data"""
+    import re
+    from errguard import structural_facts
+    from panics import sdesc_operand, skey_call
+    R = 'SEEK-BASE'
+    rep.rule(R, 'in <MemfsFile as Seek>::seek the arm of each SeekFrom variant reads exactly the state that variant is relative to: Start none, Current self.pos '
+             '(and not the data length), End the length of self.data (and neither self.pos nor any MemfsFile method, whose result could depend on the position)')
+    fn = '<%s as std::io::Seek>::seek' % FILE
+    if fn not in F.bodies:
+        rep.add(R, 'seekbase:anchor', 'MemfsFile implements Seek', False, detail='anchor %s missing' % fn)
+        return
+    B = cg.body(fn)
+    reads = {}
+    for i in range(len(B.blocks)):
+        vs = [v for d, v in structural_facts(B, i) if d == 'arg2' and v in ('Start', 'Current', 'End')]
+        own = None
+        t = B.term(i)
+        if not vs:
+            continue
+        ds = set()
+        for s in B.blocks[i]['stmts']:
+            if s['k'] != 'assign':
+                continue
+            rv = s['rv']
+            for o in ([rv['op']] if isinstance(rv.get('op'), dict) else []) + rv.get('ops', []) + [rv[k] for k in ('l', 'r', 'a') if isinstance(rv.get(k), dict)]:
+                ds.add(sdesc_operand(B, o))
+        if t['k'] == 'call':
+            ds.add(skey_call(B, t))
+        reads.setdefault(vs[0], set()).update(d for d in ds if 'arg1' in d)
+    POS = re.compile(r'arg1\.pos\b')
+    DATALEN = re.compile(r'\blen\(arg1\.data\)')
+    METHOD = re.compile(r'\b[a-z_]+\(arg1[,)]')
+    want = {'Start': (False, False), 'Current': (True, False), 'End': (False, True)}
+    for v, (pos, dl) in want.items():
+        r = reads.get(v, set())
+        # the write `self.pos = ..` of the Start arm is followed by `Ok(self.pos)`: reading back the value just stored is not a dependence
+        has_pos = any(POS.search(d) for d in r) and v != 'Start'
+        has_len = any(DATALEN.search(d) for d in r)
+        meth = sorted(d for d in r if METHOD.search(d))
+        ok = has_pos == pos and has_len == dl and not meth
+        rep.add(R, 'seekbase:%s' % v, 'SeekFrom::%s is resolved relative to %s' % (v, {'Start': 'nothing', 'Current': 'self.pos', 'End': 'self.data.len()'}[v]), ok,
+                '%s:%d' % (B.file, B.line), '' if ok else 'the SeekFrom::%s arm reads %s (expected: self.pos %s, len(self.data) %s, no MemfsFile method call)' % (v, sorted(r), pos, dl))
+    rep.floor(R, 'SeekFrom arms', len(reads), 3)
+
+
 def run(rep, F, ctx):
     cg = CallGraph(F)
     ne = cg.never_err()
@@ -83,6 +129,7 @@ def run(rep, F, ctx):
         rep.add('MUST-CALL', 'mustcall:flush-returns-sync', 'flush returns the result of sync unchanged', ok, '%s:%d' % (B.file, B.line),
                 '' if ok else 'flush does not return sync\'s result (a failed write-back would be reported as success)')
     sync_shape(rep, F, cg)
+    seek_base(rep, F, cg)
     # Write::write appends to the handle's buffer
     n = '<%s as std::io::Write>::write' % FILE
     rep.rule('WRITE-BUF', 'Write::write stores the bytes into the handle\'s own buffer (self.data) and returns that call\'s result')
@@ -94,6 +141,9 @@ def run(rep, F, ctx):
                 '' if ok else 'MemfsFile::write does not append buf to self.data')
     import mustcall as _mc
     _mc.handle_path(rep, F, cg)
+    import siteguard as _sg
+    _t = engine.load_table('site_guards.json')
+    _sg.site_guard(rep, F, cg, _t, _t['_groups']['C07'])
     return engine.finish(
         rep, 'other', EXPLANATION,
         assumptions=['Vec<u8> as io::Write appends the whole buffer', 'the excuse table lines (tables/panic_excuses.json) state true invariants; their structural side conditions are re-checked on every run'],
